@@ -15,6 +15,15 @@ typedef std::string Bytes;
 typedef std::map<Bytes, Bytes, bool (*)(const Bytes &, const Bytes &)> TableModel;
 inline bool bytes_less(const Bytes &a, const Bytes &b) { return mfmt::cmp(a, b) < 0; }
 inline TableModel new_model() { return TableModel(bytes_less); }
+// A caller's key argument that lives only for the duration of the call: an exact-size heap copy that is
+// scribbled over and freed when the call has returned (applications pass temporaries; the library must have
+// taken its own copy by then - under ASan a borrowed pointer is a heap-use-after-free, elsewhere wrong answers).
+struct TmpKey {
+	uint8_t *p; size_t n;
+	explicit TmpKey(const Bytes &b) : p((uint8_t *)malloc(b.size() ? b.size() : 1)), n(b.size()) { if (n) memcpy(p, b.data(), n); }
+	~TmpKey() { for (size_t i = 0; i < n; i++) p[i] = (uint8_t)~p[i]; free(p); }
+	TmpKey(const TmpKey &) = delete; TmpKey &operator=(const TmpKey &) = delete;
+};
 inline bool has_prefix(const Bytes &k, const Bytes &p) { return k.size() >= p.size() && memcmp(k.data(), p.data(), p.size()) == 0; }
 
 // ---------------------------------------------------------------- byte specs
